@@ -1229,3 +1229,159 @@ package quic
 //@   ensures [marked] c.receivedFirstPacket
 //@   ensures [server-drops-initial-keys-on-first-handshake-packet] implies(c.perspective == protocol.PerspectiveServer && packet.encryptionLevel == protocol.EncryptionHandshake && !old(c.droppedInitialKeys), called("(*Conn).dropEncryptionLevel") == 1)
 //@   modifies everything
+
+// ---------------- issuing connection IDs up to the peer's limit (C16, first clause) ----------------
+// "never has more unretired connection IDs issued than the peer's active_connection_id_limit allows": the generator tops the
+// active set up to min(limit, 6) and never beyond; an endpoint that uses zero-length connection IDs issues none.
+//@ iface (g quic.ConnectionIDGenerator) ConnectionIDLen
+//@   modifies nothing
+//@ func (m *connIDGenerator) SetMaxActiveConnIDs
+//@   props C16
+//@   requires m.generator != nil && m.activeSrcConnIDs != nil && m.statelessResetter != nil && m.highestSeq < 4611686018427387000 && forall(k, uint64, implies(k > m.highestSeq, !has(m.activeSrcConnIDs, k)))
+//@   let bound = min(limit, 6)
+//@   let n0 = old(len(m.activeSrcConnIDs))
+//@   ensures [never-above-the-peers-limit] len(m.activeSrcConnIDs) <= max(n0, bound)
+//@   ensures [topped-up] implies(result == nil && lastresult("(quic.ConnectionIDGenerator).ConnectionIDLen") != 0, len(m.activeSrcConnIDs) == max(n0, bound))
+//@   ensures [zero-length-ids-issue-nothing] implies(lastresult("(quic.ConnectionIDGenerator).ConnectionIDLen") == 0, result == nil && len(m.activeSrcConnIDs) == n0 && called("(*connIDGenerator).issueNewConnID") == 0)
+//@   ensures [never-shrinks] len(m.activeSrcConnIDs) >= n0
+//@   modifies m.activeSrcConnIDs[*], m.highestSeq
+//@ loop (m *connIDGenerator) SetMaxActiveConnIDs #0
+//@   invariant i == len(m.activeSrcConnIDs) && n0 <= i && i <= max(n0, bound) && m.highestSeq < 4611686018427387000 + i
+//@   invariant forall(k, uint64, implies(k > m.highestSeq, !has(m.activeSrcConnIDs, k)))
+//@   modifies m.activeSrcConnIDs[*], m.highestSeq
+
+// ---------------- taking connection IDs out of the routing table (C16: "after the connection closes, every ID is removed") ----------------
+//@ func (cr connRunners) ReplaceWithClosed
+//@   trusted iterates the registered transports' callbacks (function values); does not touch generator state
+//@   modifies nothing
+// RemoveAll: one removal per ID the generator knows — the client's initial destination ID (while still remembered), every
+// active ID and every ID still waiting for its retirement timer.
+//@ func (m *connIDGenerator) RemoveAll
+//@   props C16
+//@   requires m.activeSrcConnIDs != nil
+//@   ensures [every-known-id-removed-once] called("(connRunners).RemoveConnectionID") == ite(m.initialClientDestConnID != nil, 1, 0) + len(m.activeSrcConnIDs) + len(m.connIDsToRetire)
+//@   modifies nothing
+//@ loop (m *connIDGenerator) RemoveAll #0
+//@   invariant called("(connRunners).RemoveConnectionID") == ite(m.initialClientDestConnID != nil, 1, 0) + visitedcount
+//@   modifies nothing
+//@ loop (m *connIDGenerator) RemoveAll #1
+//@   invariant 0 <= rangeidx && rangeidx <= len(m.connIDsToRetire) && called("(connRunners).RemoveConnectionID") == ite(m.initialClientDestConnID != nil, 1, 0) + len(m.activeSrcConnIDs) + rangeidx
+//@   modifies nothing
+// ReplaceWithClosed: the same set of IDs is handed over to the closed-connection stand-in, in one call.
+//@ func (m *connIDGenerator) ReplaceWithClosed
+//@   props C16
+//@   requires m.activeSrcConnIDs != nil && len(m.connIDsToRetire) <= 1000000 && len(m.activeSrcConnIDs) <= 1000000
+//@   ensures [every-known-id-handed-over] called("(connRunners).ReplaceWithClosed") == 1 && len(callarg("(connRunners).ReplaceWithClosed", 0, 1)) == ite(m.initialClientDestConnID != nil, 1, 0) + len(m.activeSrcConnIDs) + len(m.connIDsToRetire)
+//@   modifies nothing
+//@ loop (m *connIDGenerator) ReplaceWithClosed #0
+//@   invariant len(connIDs) == ite(m.initialClientDestConnID != nil, 1, 0) + visitedcount && isfresh(connIDs)
+//@   modifies connIDs[*]
+//@ loop (m *connIDGenerator) ReplaceWithClosed #1
+//@   invariant 0 <= rangeidx && rangeidx <= len(m.connIDsToRetire) && len(connIDs) == ite(m.initialClientDestConnID != nil, 1, 0) + len(m.activeSrcConnIDs) + rangeidx && isfresh(connIDs)
+//@   modifies connIDs[*]
+// RemoveRetiredConnIDs: exactly the expired prefix of the (time-ordered) retirement queue is removed from routing and
+// dropped from the queue; nothing that has not expired is touched.
+//@ func (m *connIDGenerator) RemoveRetiredConnIDs
+//@   props C16
+//@   requires 0 <= now && now <= 4611686018427387903
+//@   let removed = called("(connRunners).RemoveConnectionID")
+//@   ensures [queue-shrinks-by-what-was-removed] len(m.connIDsToRetire) == old(len(m.connIDsToRetire)) - removed && 0 <= removed
+//@   ensures [queue-is-a-suffix] samebacking(m.connIDsToRetire, old(m.connIDsToRetire)) || removed == 0
+//@   ensures [only-expired-entries-removed] forall(k, 0, removed, old(m.connIDsToRetire[k].t) <= now)
+//@   ensures [stops-at-first-unexpired] implies(len(m.connIDsToRetire) > 0, m.connIDsToRetire[0].t > now)
+//@   modifies m.connIDsToRetire
+//@ loop (m *connIDGenerator) RemoveRetiredConnIDs #0
+//@   invariant 0 <= rangeidx && rangeidx <= old(len(m.connIDsToRetire)) && called("(connRunners).RemoveConnectionID") == rangeidx
+//@   invariant len(m.connIDsToRetire) == old(len(m.connIDsToRetire)) - rangeidx && alias(m.connIDsToRetire, old(m.connIDsToRetire), rangeidx)
+//@   invariant forall(k, 0, rangeidx, old(m.connIDsToRetire[k].t) <= now)
+//@   modifies m.connIDsToRetire
+
+// ---------------- peer connection IDs used for path probing (C16) ----------------
+// A connection ID handed out for probing a path gets its stateless-reset token registered exactly once, and once the path
+// is given up the ID is reported with RETIRE_CONNECTION_ID and its token unregistered — exactly once each.
+//@ func (h *connIDManager) GetConnIDForPath
+//@   props C16
+//@   requires !h.closed
+//@   let zero = old(h.activeConnectionID.l) == 0
+//@   let known = !zero && old(h.pathProbing != nil && has(h.pathProbing, id))
+//@   let fresh = !zero && !known && old(len(h.queue)) > 0
+//@   ensures [zero-length-ids-need-none] implies(zero, result1 && result0.l == 0 && called("field:addStatelessResetToken") == 0 && len(h.queue) == old(len(h.queue)))
+//@   ensures [same-path-same-id] implies(known, result1 && called("field:addStatelessResetToken") == 0 && len(h.queue) == old(len(h.queue)))
+//@   ensures [none-available] implies(!zero && !known && old(len(h.queue)) == 0, !result1 && called("field:addStatelessResetToken") == 0)
+//@   ensures [new-id-taken-from-the-queue-and-its-token-registered-once] implies(fresh, result1 && len(h.queue) == old(len(h.queue)) - 1 && called("field:addStatelessResetToken") == 1 && has(h.pathProbing, id) && h.highestProbingID == old(h.queue[0].SequenceNumber) && result0.l == old(h.queue[0].ConnectionID.l))
+//@   modifies h.pathProbing, h.pathProbing[*], h.queue, h.highestProbingID
+//@ func (h *connIDManager) RetireConnIDForPath
+//@   props C16
+//@   requires !h.closed
+//@   let zero = old(h.activeConnectionID.l) == 0
+//@   let known = !zero && old(h.pathProbing != nil && has(h.pathProbing, pathID))
+//@   ensures [retired-once-and-token-unregistered-once] implies(known, called("field:queueControlFrame") == 1 && called("field:removeStatelessResetToken") == 1 && !has(h.pathProbing, pathID))
+//@   ensures [unknown-path-noop] implies(!known, called("field:queueControlFrame") == 0 && called("field:removeStatelessResetToken") == 0)
+//@   modifies h.pathProbing[*]
+
+// ---------------- frames that name a stream: the stream ID is checked before anything reaches a stream (C15) ----------------
+//@ iface (h quic.receiveStreamFrameHandler) handleStreamFrame
+//@   modifies everything
+//@ iface (h quic.receiveStreamFrameHandler) handleResetStreamFrame
+//@   modifies everything
+//@ iface (h quic.sendStreamFrameHandler) updateSendWindow
+//@   modifies everything
+//@ iface (h quic.sendStreamFrameHandler) handleStopSendingFrame
+//@   modifies everything
+//@ func (m *streamsMap) HandleStreamFrame
+//@   props C15
+//@   requires m.smInv() && 0 <= f.StreamID && f.StreamID <= 4611686018427387903
+//@   let id = old(f.StreamID)
+//@   let mine = ite(id % 2 == 0, protocol.PerspectiveClient, protocol.PerspectiveServer) == old(m.perspective)
+//@   let delivered = called("(quic.receiveStreamFrameHandler).handleStreamFrame")
+//@   ensures [own-send-only-stream] implies(id % 4 >= 2 && mine, iserr(result, qerr.StreamStateError) && delivered == 0)
+//@   ensures [never-opened-local-stream] implies(mine && id % 4 < 2 && id >= old(m.outgoingBidiStreams.nextStream), iserr(result, qerr.StreamStateError) && delivered == 0)
+//@   ensures [beyond-the-advertised-limit] implies(!mine && id > ite(id % 4 >= 2, old(m.incomingUniStreams.maxStream), old(m.incomingBidiStreams.maxStream)), iserr(result, qerr.StreamLimitError) && delivered == 0)
+//@   ensures [delivered-at-most-once] delivered <= 1
+//@   modifies everything
+//@ func (m *streamsMap) HandleResetStreamFrame
+//@   props C15
+//@   requires m.smInv() && 0 <= f.StreamID && f.StreamID <= 4611686018427387903
+//@   let id = old(f.StreamID)
+//@   let mine = ite(id % 2 == 0, protocol.PerspectiveClient, protocol.PerspectiveServer) == old(m.perspective)
+//@   let delivered = called("(quic.receiveStreamFrameHandler).handleResetStreamFrame")
+//@   ensures [own-send-only-stream] implies(id % 4 >= 2 && mine, iserr(result, qerr.StreamStateError) && delivered == 0)
+//@   ensures [never-opened-local-stream] implies(mine && id % 4 < 2 && id >= old(m.outgoingBidiStreams.nextStream), iserr(result, qerr.StreamStateError) && delivered == 0)
+//@   ensures [beyond-the-advertised-limit] implies(!mine && id > ite(id % 4 >= 2, old(m.incomingUniStreams.maxStream), old(m.incomingBidiStreams.maxStream)), iserr(result, qerr.StreamLimitError) && delivered == 0)
+//@   modifies everything
+//@ func (m *streamsMap) HandleStreamDataBlockedFrame
+//@   props C15
+//@   requires m.smInv() && 0 <= f.StreamID && f.StreamID <= 4611686018427387903
+//@   let id = old(f.StreamID)
+//@   let mine = ite(id % 2 == 0, protocol.PerspectiveClient, protocol.PerspectiveServer) == old(m.perspective)
+//@   ensures [own-send-only-stream] implies(id % 4 >= 2 && mine, iserr(result, qerr.StreamStateError))
+//@   ensures [never-opened-local-stream] implies(mine && id % 4 < 2 && id >= old(m.outgoingBidiStreams.nextStream), iserr(result, qerr.StreamStateError))
+//@   modifies m.incomingBidiStreams.streams[*], m.incomingBidiStreams.nextStreamToOpen, m.incomingUniStreams.streams[*], m.incomingUniStreams.nextStreamToOpen
+//@ func (m *streamsMap) HandleMaxStreamDataFrame
+//@   props C15
+//@   requires m.smInv() && 0 <= f.StreamID && f.StreamID <= 4611686018427387903
+//@   let id = old(f.StreamID)
+//@   let mine = ite(id % 2 == 0, protocol.PerspectiveClient, protocol.PerspectiveServer) == old(m.perspective)
+//@   let delivered = called("(quic.sendStreamFrameHandler).updateSendWindow")
+//@   ensures [peers-send-only-stream] implies(id % 4 >= 2 && !mine, iserr(result, qerr.StreamStateError) && delivered == 0)
+//@   ensures [never-opened-local-stream] implies(mine && id >= ite(id % 4 >= 2, old(m.outgoingUniStreams.nextStream), old(m.outgoingBidiStreams.nextStream)), iserr(result, qerr.StreamStateError) && delivered == 0)
+//@   modifies everything
+//@ func (m *streamsMap) HandleStopSendingFrame
+//@   props C15
+//@   requires m.smInv() && 0 <= f.StreamID && f.StreamID <= 4611686018427387903
+//@   let id = old(f.StreamID)
+//@   let mine = ite(id % 2 == 0, protocol.PerspectiveClient, protocol.PerspectiveServer) == old(m.perspective)
+//@   let delivered = called("(quic.sendStreamFrameHandler).handleStopSendingFrame")
+//@   ensures [peers-send-only-stream] implies(id % 4 >= 2 && !mine, iserr(result, qerr.StreamStateError) && delivered == 0)
+//@   ensures [never-opened-local-stream] implies(mine && id >= ite(id % 4 >= 2, old(m.outgoingUniStreams.nextStream), old(m.outgoingBidiStreams.nextStream)), iserr(result, qerr.StreamStateError) && delivered == 0)
+//@   modifies everything
+
+// ---------------- MAX_STREAM_DATA reaches the stream's flow controller (C04: reordered or duplicate frames are harmless) ----------------
+//@ func (s *SendStream) updateSendWindow
+//@   props C04
+//@   let fc = dyn(s.flowController, *flowcontrol.streamFlowController)
+//@   requires s.flowController != nil && typeis(s.flowController, *flowcontrol.streamFlowController) && fc.sInv() && 0 <= limit && limit <= 4611686018427387903 && s.sender != nil
+//@   ensures [window-only-grows] fc.sendWindow == max(old(fc.sendWindow), limit)
+//@   ensures [stale-limit-wakes-nobody] implies(limit <= old(fc.sendWindow), called("(quic.streamSender).onHasStreamData") == 0)
+//@   ensures [raised-limit-wakes-a-stream-with-data] implies(limit > old(fc.sendWindow), called("(quic.streamSender).onHasStreamData") == ite(s.dataForWriting != nil || s.nextFrame != nil, 1, 0))
+//@   modifies fc.sendWindow
